@@ -362,6 +362,7 @@ def epos_rules(prog, R, trimmer):
                                             decided = True
                     R.add('LEN-1', b, 'verdict-on-reported-lengths', decided, site(b, s.line),
                           'the UnequalLengths error %s' % ('is reached only through "trimmed seq length != trimmed qual length" (the lengths it reports)' if decided else 'can be reached without the trimmed lengths having been compared (e.g. on raw line extents only: a CRLF record without final terminator is rejected with seq == qual)'))
+    len2_rule(prog, R, trimmer)
     for v in ('InvalidStart', 'InvalidSep', 'UnequalLengths', 'UnexpectedEnd'):
         if count.get(v, 0) < 1:
             R.add('EPOS-1', 'fastq', 'constructed:%s' % v, False, 'src/fastq.rs', 'no construction of fastq::Error::%s found' % v)
@@ -948,3 +949,95 @@ def ser_rules(prog, R):
 
 def count_len(b, op):
     return None
+
+
+def len2_rule(prog, R, trimmer):
+    """LEN-2: a record whose last line has no terminator is accepted only after its trimmed
+    lengths were compared.  The raw line extents include the terminators, and the extent of an
+    unterminated quality line counts a terminator that is not there; equality of raw extents is
+    conclusive only when both lines carry the same terminator."""
+    R.rule('LEN-2', 'the validator accepts on equal raw extents only when told that the last line is terminated; the site that completes a record at the end of the input (record end := buffer length) asks for the comparison of the trimmed lengths')
+    vals = [b for b in prog.bodies.values() if b.key.startswith('fastq::Reader::') and not is_derive(b) and any(
+        s.k == 'assign' and s.rv.k == 'agg' and s.rv.j.get('variant') == 'UnequalLengths' for blk in b.blocks for s in blk.stmts)]
+    if len(vals) != 1:
+        R.anchor_missing('LEN-2', 'the validator (function constructing UnequalLengths)')
+        return
+    v = vals[0]
+    du = DefUse(v)
+    # trimmed-equality edges: switches on Ne/Eq of len(trimmed seq) / len(trimmed qual)
+    def trimmed_len_terms():
+        out = []
+        for x, t in v.calls():
+            if t.callee and t.callee.name == 'len':
+                inner = roots_of(v, t.args[0], du, through_calls=identity_through)
+                if inner and all(q[0] == 'call' and prog.local_callee_body(q[1].callee) is not None and
+                                 prog.local_callee_body(q[1].callee).key.rsplit('::', 1)[-1] in ('seq', 'qual') for q in inner):
+                    out.append(t)
+        return out
+    lts = set(id(t) for t in trimmed_len_terms())
+    eq_edges = set()
+    for a in v.cfg.reachable:
+        t = v.blocks[a].term
+        if t.k != 'switch':
+            continue
+        for r in roots_of(v, t.discr, du):
+            if r[0] == 'bin' and r[1].rv.j['op'] in ('Ne', 'Eq'):
+                ids = set()
+                for o in r[1].rv.ops:
+                    for q in roots_of(v, o, du):
+                        if q[0] == 'call':
+                            ids.add(id(q[1]))
+                if len(ids) == 2 and ids <= lts:
+                    eq_t = [tg for vv, tg in t.targets if vv == 0][0] if r[1].rv.j['op'] == 'Ne' else t.otherwise
+                    eq_edges.add((a, eq_t))
+    # edges that require "the last line is terminated" (a bool parameter being false / true resp.)
+    bool_params = [i for i in range(2, v.arg_count + 1) if v.local_tys[i] == 'bool']
+    term_edges = set()
+    for a in v.cfg.reachable:
+        t = v.blocks[a].term
+        if t.k == 'switch' and not t.discr.is_const:
+            rs = roots_of(v, t.discr, du)
+            if rs and all(r[0] == 'arg' and r[1] in bool_params for r in rs):
+                # the edge on which the flag "unterminated" is false
+                for vv, tg in t.targets:
+                    if vv == 0:
+                        term_edges.add((a, tg))
+    from rules_err import ok_return_blocks
+    okret = ok_return_blocks(v)
+    removed = eq_edges | term_edges
+    seen = {0}
+    st = [0]
+    while st:
+        x = st.pop()
+        for s_ in v.cfg.succ[x]:
+            if (x, s_) in removed or s_ in seen:
+                continue
+            seen.add(s_)
+            st.append(s_)
+    esc = sorted(r for r in okret if r in seen)
+    R.add('LEN-2', v, 'acceptance-on-raw-extents-needs-terminated-last-line', not esc and bool(eq_edges), site(v, v.span['lo']),
+          'the validator can accept a record on equal raw extents alone, without knowing that the last line is terminated: %s' % (
+              bool(esc) or not eq_edges) + ' (a CRLF record whose unterminated quality line is one longer than the sequence is accepted)' * bool(esc or not eq_edges))
+    # the EOF completion site passes "unterminated"
+    n = 0
+    for b in prog.bodies.values():
+        if not b.key.startswith('fastq::Reader::') or is_derive(b):
+            continue
+        d2 = DefUse(b)
+        for blk in b.blocks:
+            if blk.idx not in b.cfg.rset:
+                continue
+            for s in blk.stmts:
+                if s.k == 'assign' and [p['name'] for p in s.place.proj if p['k'] == 'field'] == ['buf_pos', 'pos', '1']:
+                    src = roots_of(b, s.rv.ops[0], d2) if s.rv.k in ('use', 'cast') else []
+                    if src and all(r[0] == 'call' and r[1].callee.name == 'len' for r in src):
+                        # record end := buffer length: the call of the validator after it must pass true
+                        n += 1
+                        okc = False
+                        for x, t in b.calls():
+                            if prog.local_callee_body(t.callee) is v and b.cfg.dominates(blk.idx, x):
+                                flags = [a for a in t.args[1:] if a.is_const and a.j.get('ty') == 'bool']
+                                okc = bool(flags) and all(a.const_int() == 1 for a in flags)
+                        R.add('LEN-2', b, 'eof-completion-asks-for-trimmed-comparison#%d' % n, okc, site(b, s.line),
+                              'the record is completed at the end of the input (its last line has no terminator); the validator is %s the trimmed lengths' % ('told to compare' if okc else 'NOT told to compare'))
+    R.floor('LEN-2', 2)
